@@ -28,11 +28,22 @@ impl AssignAddTransform {
             }
 
             AssignTarget::Simple(left_expr) => {
+                // `a += 1 + 2` means `a + (1 + 2)`: keep the grouping of a right operand that is still a
+                // bare addition (literal-only sums are not instrumented), otherwise it prints as `a + 1 + 2`
+                let right = match &*assign.right {
+                    Expr::Bin(right_bin) if right_bin.op == BinaryOp::Add => {
+                        Box::new(Expr::Paren(ParenExpr {
+                            span: right_bin.span,
+                            expr: assign.right.clone(),
+                        }))
+                    }
+                    _ => assign.right.clone(),
+                };
                 let binary = Expr::Bin(BinExpr {
                     span,
                     op: BinaryOp::Add,
                     left: left_expr.clone().into(),
-                    right: assign.right.clone(),
+                    right,
                 });
 
                 let result = BinaryAddTransform::to_dd_binary_expr(
